@@ -69,8 +69,10 @@ func runOne(p *Prog, side int, ans []int, panicAt int, cf cfg) (log []string, ch
 	c := rt.New(ans, cf.F, panicAt)
 	defer c.KillAll()
 	func() {
+		// a completion flag, not recover() != nil: under GODEBUG=panicnil=1 a panic(nil) recovers as nil
+		completed := false
 		defer func() {
-			if r := recover(); r != nil {
+			if r := recover(); !completed {
 				c.Mark(fmt.Sprintf("PANIC %#v", r))
 			}
 		}()
@@ -85,6 +87,10 @@ func runOne(p *Prog, side int, ans []int, panicAt int, cf cfg) (log []string, ch
 			c.Mark("CALL>")
 			it := f(c)
 			c.Mark("CALL<")
+			// peeking at an unstarted iterator is part of the protocol and must run nothing
+			c.Mark("CUR>")
+			v0 := it.Current()
+			c.Mark(fmt.Sprintf("CUR<%d", v0))
 			exhausted := 0
 			for k := 0; k < cf.H && exhausted < 3; k++ {
 				c.Mark(fmt.Sprintf("MN>%d", k))
@@ -95,6 +101,7 @@ func runOne(p *Prog, side int, ans []int, panicAt int, cf cfg) (log []string, ch
 					exhausted++
 				}
 			}
+			completed = true
 			return
 		}
 		f := p.POut
@@ -107,6 +114,7 @@ func runOne(p *Prog, side int, ans []int, panicAt int, cf cfg) (log []string, ch
 		c.Mark("CALL>")
 		f(c)
 		c.Mark("CALL<")
+		completed = true
 	}()
 	return c.Log, c.Choices, c.Arity, c.Events()
 }
